@@ -84,7 +84,27 @@ impl<'a, I, O> ExecStmt<'a, I, O> {
 
 #[cfg(feature = "verif")]
 impl<'a, I, O> ExecStmt<'a, I, O> {
-    fn verif_stmt(&self, phase: crate::verif::Phase) {
+    fn verif_stmt(&self, phase: crate::verif::Phase, s: &Statement) {
+        let kind = match s {
+            Statement::Assignment(_) => "Assignment",
+            Statement::PoeticAssignment(_) => "PoeticAssignment",
+            Statement::If(_) => "If",
+            Statement::While(_) => "While",
+            Statement::Until(_) => "Until",
+            Statement::Inc(_) => "Inc",
+            Statement::Dec(_) => "Dec",
+            Statement::Input(_) => "Input",
+            Statement::Output(_) => "Output",
+            Statement::Mutation(_) => "Mutation",
+            Statement::Rounding(_) => "Rounding",
+            Statement::Continue(_) => "Continue",
+            Statement::Break(_) => "Break",
+            Statement::ArrayPush(_) => "ArrayPush",
+            Statement::ArrayPop(_) => "ArrayPop",
+            Statement::Return(_) => "Return",
+            Statement::Function(_) => "Function",
+            Statement::FunctionCall(_) => "FunctionCall",
+        };
         let depth = self.env.borrow().verif_scope_depth();
         let flow = match self.control_flow_state {
             ControlFlowState::Normal => crate::verif::Flow::Normal,
@@ -92,7 +112,7 @@ impl<'a, I, O> ExecStmt<'a, I, O> {
             ControlFlowState::Continuing => crate::verif::Flow::Continuing,
             ControlFlowState::Returning => crate::verif::Flow::Returning,
         };
-        crate::verif::stmt(phase, depth, flow);
+        crate::verif::stmt(phase, depth, flow, kind);
     }
 }
 
@@ -103,6 +123,8 @@ impl<'a, I: Read, O: Write> ExecStmt<'a, I, O> {
         block: &Block,
     ) -> visit::Result<Self> {
         while INVERT ^ self.producer().visit_expression(&condition)?.0.is_truthy() {
+            #[cfg(feature = "verif")]
+            crate::verif::loop_tick();
             self.env.borrow_mut().push_scope();
             self.visit_block(block)?;
             self.env.borrow_mut().pop_scope();
@@ -180,10 +202,10 @@ impl<'a, I: Read, O: Write> VisitProgram for ExecStmt<'a, I, O> {
             Block::NonEmpty(statements) => {
                 for s in statements {
                     #[cfg(feature = "verif")]
-                    self.verif_stmt(crate::verif::Phase::Before);
+                    self.verif_stmt(crate::verif::Phase::Before, s);
                     self.visit_statement(s)?;
                     #[cfg(feature = "verif")]
-                    self.verif_stmt(crate::verif::Phase::After);
+                    self.verif_stmt(crate::verif::Phase::After, s);
                     if self.control_flow_state.skip_rest_of_block() {
                         break;
                     }
